@@ -134,6 +134,12 @@ func clamped(p *pkgInfo, fn *ast.FuncDecl, name string, vars map[string]string, 
 
 // intAssign finds `name := <int literal>` in fn.
 func intAssign(p *pkgInfo, fn *ast.FuncDecl, name string) string {
+	// a named package constant instead of a local
+	if v, ok := p.consts[name]; ok {
+		if bl, ok := v.(*ast.BasicLit); ok && bl.Kind == token.INT {
+			return bl.Value
+		}
+	}
 	var out string
 	ast.Inspect(fn.Body, func(n ast.Node) bool {
 		if s, ok := n.(*ast.AssignStmt); ok && out == "" && len(s.Lhs) == 1 && len(s.Rhs) == 1 && s.Tok == token.DEFINE {
@@ -156,7 +162,7 @@ func callArg(p *pkgInfo, fn *ast.FuncDecl, callee string, idx int, nth int) ast.
 	var out ast.Expr
 	k := 0
 	ast.Inspect(fn.Body, func(n ast.Node) bool {
-		if c, ok := n.(*ast.CallExpr); ok && out == nil && callName(c) == callee && len(c.Args) > idx {
+		if c, ok := n.(*ast.CallExpr); ok && out == nil && calleeIs(callName(c), callee) && len(c.Args) > idx {
 			if k == nth {
 				out = c.Args[idx]
 			}
@@ -311,10 +317,89 @@ func clampedRole(p *pkgInfo, fn *ast.FuncDecl, anchor, legacy string, vars map[s
 	}
 	if h := definedByCall(p, fn, name); h != nil {
 		if r := returnedIdent(h); r != "" {
-			return clamped(p, h, r, vars, tok)
+			if out, ok := tryClamped(p, h, r, vars, tok); ok {
+				return out
+			}
 		}
+		// a helper of another shape (early returns, named constants): its body, executed symbolically
+		return compileZ(p, h, vars)
 	}
 	return clamped(p, fn, name, vars, tok)
+}
+
+func tryClamped(p *pkgInfo, fn *ast.FuncDecl, name string, vars map[string]string, tok token.Token) (out string, ok bool) {
+	defer func() {
+		if r := recover(); r != nil {
+			out, ok = "", false
+		}
+	}()
+	return clamped(p, fn, name, vars, tok), true
+}
+
+// zDialect: integer (duration) expressions of a helper, leaves translated by gexpr.
+type zDialect struct {
+	p    *pkgInfo
+	vars map[string]string
+}
+
+func (d *zDialect) expr(c *compiler, e ast.Expr) (s string, ok bool) {
+	switch e.(type) {
+	case *ast.BasicLit, *ast.SelectorExpr, *ast.CallExpr:
+	case *ast.Ident:
+		if _, local := c.types[e.(*ast.Ident).Name]; local {
+			return "", false
+		}
+	case *ast.BinaryExpr:
+		switch e.(*ast.BinaryExpr).Op {
+		case token.MUL, token.ADD, token.SUB, token.QUO:
+			// arithmetic over constants and configuration fields: all of it at once (anything over locals makes gexpr
+			// give up and goes through the generic path)
+		default:
+			return "", false
+		}
+	default:
+		return "", false
+	}
+	defer func() {
+		if r := recover(); r != nil {
+			s, ok = "", false
+		}
+	}()
+	return gexpr(d.p, e, d.vars), true
+}
+func (d *zDialect) ret(c *compiler, results []ast.Expr) string { return c.expr(results[0]) }
+func (d *zDialect) ifInit(c *compiler, s *ast.IfStmt) (string, bool) { return "", false }
+
+// compileZ translates a helper that computes a duration from configuration fields (vars: selector suffix -> Coq name; a
+// field that is to be taken as zero maps to "0").
+func compileZ(p *pkgInfo, fd *ast.FuncDecl, vars map[string]string) string {
+	d := &zDialect{p: p, vars: vars}
+	c := &compiler{fset: p.fset, d: d, types: map[string]string{}, funcs: p.funcs, plainRet: true, pkgConsts: p.consts}
+	ast.Inspect(fd.Body, func(n ast.Node) bool {
+		if a, ok := n.(*ast.AssignStmt); ok && a.Tok == token.DEFINE {
+			for _, l := range a.Lhs {
+				if id, ok := l.(*ast.Ident); ok {
+					c.types[id.Name] = "Z"
+				}
+			}
+		}
+		return true
+	})
+	// selectors and calls (conversions) are integers
+	c.types["?"] = "Z"
+	body := c.stmts(fd.Body.List)
+	if body == "" {
+		panic(p.pos(fd) + ": helper falls off its end")
+	}
+	return strings.ReplaceAll(body, "wrap64 ", "")
+}
+
+// calleeIs: time.After and time.NewTimer are interchangeable ways to wait for a duration.
+func calleeIs(got, want string) bool {
+	if got == want {
+		return true
+	}
+	return (want == "time.After" && got == "time.NewTimer") || (want == "time.NewTimer" && got == "time.After")
 }
 
 func genGuards(p *pkgInfo) string {
@@ -352,7 +437,7 @@ func genGuards(p *pkgInfo) string {
 
 	dh := p.fn("disconnectHandler.handleDisconnect")
 	b.WriteString("(* " + p.pos(dh) + " *)\n")
-	b.WriteString("Definition gen_default_grace (H : Z) : Z := " + clampedRole(p, dh, argIdent(dh, []string{"time.AfterFunc"}, 0), "gracePeriod", map[string]string{".cfg.HeartbeatInterval": "H"}, token.ASSIGN) + ".\n\n")
+	b.WriteString("Definition gen_default_grace (H : Z) : Z := " + clampedRole(p, dh, argIdent(dh, []string{"time.AfterFunc"}, 0), "gracePeriod", map[string]string{".cfg.HeartbeatInterval": "H", ".cfg.DisconnectGracePeriod": "0"}, token.ASSIGN) + ".\n\n")
 
 	wl := p.fn("kvElection.watchLoop")
 	b.WriteString("(* " + p.pos(wl) + " *)\n")
@@ -374,7 +459,13 @@ func genGuards(p *pkgInfo) string {
 		}
 		b.WriteString("Definition " + n[1] + " : Z := " + gexpr(p, v, nil) + ".\n")
 	}
-	b.WriteString("Definition gen_val_max_failures : Z := " + intAssign(p, vl, "maxFailures") + ".\n")
+	valThr := "maxFailures"
+	if vc := guardedBy(vl, "handleValidationFailure"); vc != nil {
+		if y, ok := vc.Y.(*ast.Ident); ok {
+			valThr = y.Name
+		}
+	}
+	b.WriteString("Definition gen_val_max_failures : Z := " + intAssign(p, vl, valThr) + ".\n")
 	// the time-out of one validation read, as a function of the heartbeat interval
 	b.WriteString("Definition gen_val_read_timeout (H : Z) : Z := " + clampedRole(p, vl, argIdent(vl, []string{"context.WithTimeout"}, 1), "validationTimeout", hv, token.DEFINE) + ".\n\n")
 
